@@ -7,9 +7,10 @@
       PVgen.Gen_ThermalTruncate   gen_truncate_test, gen_truncate_flag             DensityMatrixPart::truncate
       PVgen.Gen_ThermalAverages   gen_occupancy_summand, gen_occupancy_i_summand,
                                   gen_double_occupancy_summand                     DensityMatrixPart::getAverage*Occupancy
-      PVgen.Gen_RetainGF          gen_gf_stripe / _retention / _advance_left / _advance_right     GreensFunction::prepare
+      PVgen.Gen_RetainGF          gen_gf_stripe / _retention / _advance_left / _advance_right,
+                                  gen_gf_flags_init, gen_gf_step (one iteration of the loop body) GreensFunction::prepare
       PVgen.Gen_RetainSusc        gen_susc_...                                                    Susceptibility::prepare
-      PVgen.Gen_RetainEA          gen_ea_diagonal, gen_ea_retention                               EnsembleAverage::prepare
+      PVgen.Gen_RetainEA          gen_ea_diagonal, gen_ea_retention, gen_ea_flags_init, gen_ea_step EnsembleAverage::prepare
       PVgen.Gen_RetainTPGF        gen_tpgf_blocks, gen_tpgf_retention                             TwoParticleGF::prepare
 
     Below, every function of PV.Thermal that contains one of these leaves is written once more, loop for loop as in
@@ -22,7 +23,7 @@
     Definitions only. *)
 Require Import Bool List Arith Reals.
 From Coquelicot Require Import Complex.
-From PV Require Import Outcome Thermal ThermalSpec ThermalComplex.
+From PV Require Import Outcome Thermal ThermalSpec ThermalComplex ThermalShapes.
 From PVgen Require Import Gen_ThermalWeight Gen_ThermalTruncate Gen_ThermalAverages
                           Gen_RetainGF Gen_RetainSusc Gen_RetainEA Gen_RetainTPGF.
 Import ListNotations.
@@ -88,50 +89,67 @@ Definition dm_average_occupancy_i_src (M i : nat) (H : list (hpart K)) (D : list
 Definition dm_average_double_occupancy_src (M i j : nat) (H : list (hpart K)) (D : list (dmpart K)) : outcome K :=
   if (i <? M) && (j <? M) then Done (dm_sum_parts K k0 kadd (part_average_double_occupancy_src i j) H D) else OOB.
 
-(** * EnsembleAverage::prepare *)
+(** * EnsembleAverage::prepare: the loop over the entries of A's left map, iterating the GENERATED step (one iteration of
+    the loop body: is `result += compute(...)` executed and on which blocks, is the loop left, the bool locals).
+    State of the fold: (result so far, "the loop has been left", bool locals). *)
+Definition ea_iter_src (A : fieldop K) (D : list (dmpart K)) (st : outcome K * bool * list bool) (p : oppart K)
+  : outcome K * bool * list bool :=
+  let '(acc, exited, flags) := st in
+  if exited then st else
+  let s := gen_ea_step (is_retained K D) flags (op_left K p) (op_right K p) in
+  ((if ws_push s then
+      bind acc (fun r =>
+        match get_part_from_left K A (part_block 0 (ws_part s)), nth_error D (part_block 2 (ws_part s)) with
+        | Some Apart, Some dp => Done (kadd r (ea_compute K k0 kadd kmul Apart dp))
+        | _, _ => OOB
+        end)
+    else acc), ws_exit s, ws_flags s).
 Definition ea_prepare_src (A : fieldop K) (D : list (dmpart K)) : outcome K :=
-  fold_left (fun acc p =>
-     bind acc (fun r =>
-       if gen_ea_diagonal (op_left K p) (op_right K p) then
-         if gen_ea_retention (is_retained K D) (op_left K p) (op_right K p) then
-           match get_part_from_left K A (op_left K p), nth_error D (op_left K p) with
-           | Some Apart, Some dp => Done (kadd r (ea_compute K k0 kadd kmul Apart dp))
-           | _, _ => OOB
-           end
-         else Done r
-       else Done r)) A (Done k0).
+  fst (fst (fold_left (ea_iter_src A D) A (Done k0, false, gen_ea_flags_init))).
 
 End ThermalGen.
 
-(** * The merge walk of GreensFunction::prepare / Susceptibility::prepare with the four tests as arguments
-    (arguments of each test: left.first, left.second, right.second, right.first -- for GreensFunction
-    Cleft, Cright, CXleft, CXright).  Same fuel and same recursion as Thermal.stripe_walk. *)
-Fixpoint walk_with (stripe : nat -> nat -> nat -> nat -> bool)
-                   (retention : (nat -> bool) -> nat -> nat -> nat -> nat -> bool)
-                   (adv_left adv_right : nat -> nat -> nat -> nat -> bool)
-                   (fuel : nat) (ret : nat -> bool) (cl cxr : list (nat * nat)) (acc : list (nat * nat))
+(** * The merge walk of GreensFunction::prepare / Susceptibility::prepare, iterating a step function: what ONE iteration
+    of the loop body does (PV.ThermalShapes.walk_step; arguments of the step: DM.isRetained, the bool locals declared in
+    front of the loop, then left.first, left.second, right.second, right.first -- for GreensFunction Cleft, Cright,
+    CXleft, CXright).  Same fuel and same recursion as Thermal.stripe_walk, plus what the model does not have and the
+    source might: leaving the loop early, state carried from one iteration to the next.  A created part is labelled
+    by the blocks handed to the constructor as HpartOuter, HpartInner (arguments 3 and 2), as the harness prints them. *)
+Fixpoint walk_steps (step : (nat -> bool) -> list bool -> nat -> nat -> nat -> nat -> walk_step)
+                    (fuel : nat) (ret : nat -> bool) (flags : list bool) (cl cxr : list (nat * nat)) (acc : list (nat * nat))
   : outcome (list (nat * nat)) :=
   match cl, cxr with
   | (Cleft, Cright) :: cl', (CXright, CXleft) :: cxr' =>
     match fuel with
     | O => OutOfFuel
     | S f =>
-      let acc' := if stripe Cleft Cright CXleft CXright
-                  then (if retention ret Cleft Cright CXleft CXright then acc ++ [(Cleft, Cright)] else acc)
-                  else acc in
-      walk_with stripe retention adv_left adv_right f ret
-                (if adv_left Cleft Cright CXleft CXright then cl' else cl)
-                (if adv_right Cleft Cright CXleft CXright then cxr' else cxr) acc'
+      let s := step ret flags Cleft Cright CXleft CXright in
+      let acc' := if ws_push s then acc ++ [(part_block 3 (ws_part s), part_block 2 (ws_part s))] else acc in
+      if ws_exit s then Done acc'
+      else walk_steps step f ret (ws_flags s)
+                      (if ws_adv_left s then cl' else cl) (if ws_adv_right s then cxr' else cxr) acc'
     end
   | _, _ => Done acc
   end.
 
+(** the step of the model, in the vocabulary of the generated files: a part for a retained stripe, built from the blocks
+    of the stripe in the order of the constructor (C part, CX part, inner and outer Hamiltonian part, inner and outer
+    density-matrix part); both advance tests; never an exit; no state *)
+Definition model_walk_part (l_first l_second r_second r_first : nat) : list (nat * nat) :=
+  [(acc_left_from_left, l_first); (acc_right_from_right, r_first); (acc_H, l_second); (acc_H, l_first);
+   (acc_DM, l_second); (acc_DM, l_first)].
+Definition model_walk_step (ret : nat -> bool) (l_first l_second r_second r_first : nat) : walk_step :=
+  mk_walk_step ((Nat.eqb l_first r_first && Nat.eqb l_second r_second) && (ret l_first || ret l_second))
+               (model_walk_part l_first l_second r_second r_first)
+               (Nat.leb l_first r_first) (Nat.leb r_first l_first) false [].
+Definition model_ea_step (ret : nat -> bool) (Aleft Aright : nat) : walk_step :=
+  mk_walk_step (Nat.eqb Aleft Aright && ret Aleft) [(acc_left_from_left, Aleft); (acc_H, Aleft); (acc_DM, Aleft)]
+               false false false [].
+
 Definition gf_prepare_src (ret : nat -> bool) (cl cxr : list (nat * nat)) : outcome (list (nat * nat)) :=
-  walk_with gen_gf_stripe gen_gf_retention gen_gf_advance_left gen_gf_advance_right
-            (length cl + length cxr) ret cl cxr [].
+  walk_steps gen_gf_step (length cl + length cxr) ret gen_gf_flags_init cl cxr [].
 Definition susc_prepare_src (ret : nat -> bool) (al br : list (nat * nat)) : outcome (list (nat * nat)) :=
-  walk_with gen_susc_stripe gen_susc_retention gen_susc_advance_left gen_susc_advance_right
-            (length al + length br) ret al br [].
+  walk_steps gen_susc_step (length al + length br) ret gen_susc_flags_init al br [].
 
 (** * TwoParticleGF::prepare: Thermal.tpgf_try with the generated retention loop over LeftIndices[k] *)
 Definition tpgf_try_src (ret : nat -> bool) (ops : list bimap) (pn : nat) (perm : list nat) (L0 L3 : nat) : list tpgf_part :=
